@@ -119,6 +119,94 @@ def extract(repo):
             raise Missing('default gc_policy')
         return m.group(1)
     grab('lsmtkDefaultGcPolicy', default_policy)
+    # prototk / buffertk (C15)
+    try:
+        pt = read(repo, 'prototk/src/lib.rs')
+        ft = read(repo, 'prototk/src/field_types.rs')
+        pd = read(repo, 'prototk_derive/src/lib.rs')
+        vi = read(repo, 'buffertk/src/varint.rs')
+        bt = read(repo, 'buffertk/src/lib.rs')
+    except OSError as ex:
+        notes.append('prototk: not extracted (%s)' % ex)
+        pt = ft = pd = vi = bt = ''
+    WT_NAMES = ['Varint', 'SixtyFour', 'LengthDelimited', 'ThirtyTwo']
+    def wire_type_bits(fn_name, pat):
+        m = re.search(r'pub fn %s\b.*?\n    \}' % fn_name, pt, re.S)
+        if not m:
+            raise Missing(fn_name)
+        d = {}
+        for a, b in re.findall(pat, m.group(0)):
+            d[a] = b
+        return d
+    def wt_new():
+        d = wire_type_bits('new\(tag_bits', r'(\d+) => Ok\(WireType::(\w+)\)')
+        inv = {v: int(k) for k, v in d.items()}
+        if sorted(inv) != sorted(WT_NAMES):
+            raise Missing('WireType::new arms: %s' % d)
+        return [inv[n] for n in WT_NAMES]
+    def wt_bits():
+        d = wire_type_bits('tag_bits\(&self', r'WireType::(\w+) => (\d+)')
+        if sorted(d) != sorted(WT_NAMES):
+            raise Missing('WireType::tag_bits arms: %s' % d)
+        return [int(d[n]) for n in WT_NAMES]
+    grab('protoWireTypeBitsNew', wt_new)
+    grab('protoWireTypeBits', wt_bits)
+    for lean, rust in (('protoFirstFieldNumber', 'FIRST_FIELD_NUMBER'), ('protoLastFieldNumber', 'LAST_FIELD_NUMBER'),
+                       ('protoFirstReservedFieldNumber', 'FIRST_RESERVED_FIELD_NUMBER'), ('protoLastReservedFieldNumber', 'LAST_RESERVED_FIELD_NUMBER')):
+        grab(lean, lambda rust=rust: eval_int(const_int(pt, rust)))
+        grab(lean.replace('proto', 'protoDerive'), lambda rust=rust: eval_int(const_int(pd, rust)))
+    FIELD_TYPES = ['int32', 'int64', 'uint32', 'uint64', 'sint32', 'sint64', 'Bool', 'fixed32', 'fixed64', 'sfixed32', 'sfixed64',
+                   'float', 'double', 'bytes', 'bytes16', 'bytes32', 'bytes64', 'string', 'message']
+    def field_wire_types():
+        bits = dict(zip(WT_NAMES, wt_bits()))
+        out_ = []
+        for t in FIELD_TYPES:
+            m = re.search(r"impl(?:<[^>]*>)?\s+FieldType<'?\w*>\s+for\s+%s\b[^{]*\{\s*const WIRE_TYPE: WireType = WireType::(\w+);" % t, ft)
+            if not m:
+                raise Missing('WIRE_TYPE of ' + t)
+            out_.append(bits[m.group(1)])
+        return out_
+    grab('protoFieldWireTypes', field_wire_types)
+    def fixed_bytes_sizes():
+        out_ = []
+        for n in (16, 32, 64):
+            m = re.search(r'pub struct bytes%d\(pub \[u8; (\d+)\]\);' % n, ft)
+            if not m:
+                raise Missing('bytes%d' % n)
+            out_.append(int(m.group(1)))
+        return out_
+    grab('protoFixedBytesSizes', fixed_bytes_sizes)
+    def message_unpack_asserts():
+        m = re.search(r"impl<'a, M> Unpackable<'a> for message<M>.*?\n\}", ft, re.S)
+        if not m:
+            raise Missing('message<M>::unpack')
+        return 1 if re.search(r'\bassert', m.group(0)) else 0
+    grab('protoMessageUnpackAsserts', message_unpack_asserts)
+    def named_variant_rejects_unknown():
+        m = re.search(r'impl ProtoTKVisitor for UnpackMessageVisitor.*?fn named_variant_snippet.*?fn unnamed_variant_snippet', pd, re.S)
+        if not m:
+            raise Missing('UnpackMessageVisitor::named_variant_snippet')
+        k = re.search(r'#\(#field_blocks\)\*(.*?)if let Some\(error\)', m.group(0), re.S)
+        if not k:
+            raise Missing('named variant field loop')
+        return 1 if 'unknown_discriminant' in k.group(1) else 0
+    grab('protoNamedVariantRejectsUnknown', named_variant_rejects_unknown)
+    def varint_max():
+        m = re.search(r'let bytes: usize = if buf\.len\(\) < (\d+) \{ buf\.len\(\) \} else \{ (\d+) \};', vi)
+        k = re.search(r'if buf\.len\(\) < (\d+) \{\s*return Self::unpack_slow\(buf\);', vi)
+        sizes = [int(x) for x in re.findall(r'Self::unpack_size::<(\d+)>\(buf\)', vi)]
+        if not m or not k or len({m.group(1), m.group(2), k.group(1)}) != 1 or sizes != list(range(1, int(k.group(1)) + 1)):
+            raise Missing('varint length limit')
+        return int(k.group(1))
+    grab('varintMaxBytes', varint_max)
+    def result_tags():
+        ok = re.findall(r'Ok\(x\) => (?:\{\s*)?stack_pack\(v64::from\((\d+)\)\)', bt)
+        er = re.findall(r'Err\(e\) => (?:\{\s*)?stack_pack\(v64::from\((\d+)\)\)', bt)
+        arms = re.findall(r'\n            (\d+) => \{\s*let x: v64 = up\.unpack\(\)\?;', bt)
+        if len(set(ok)) != 1 or len(set(er)) != 1 or arms != [ok[0], er[0]]:
+            raise Missing('Result tags: %s %s %s' % (ok, er, arms))
+        return [int(ok[0]), int(er[0])]
+    grab('resultTags', result_tags)
     return out, notes
 
 def lean_str(x):
